@@ -316,3 +316,105 @@ Example bmsg_ok_rd_satisfiable_lf : bmsg_ok_rd LF (w_sep, s "Subject: x" ++ [NL;
 Proof. vm_compute. reflexivity. Qed.
 Example bmsg_ok_rd_satisfiable_crlf : bmsg_ok_rd CRLF (w_sep, s "Subject: x" ++ [CR; NL; CR; NL] ++ s "body") = true.
 Proof. vm_compute. reflexivity. Qed.
+
+(* ------------------------------------------------------------------ any quoting that defuses separator lines *)
+Lemma quoted_msgs_ok (f : str -> str) :
+  (forall l, is_from_line (f l) = false) -> (forall l, is_line (f l) = is_line l) ->
+  forall msgs, forallb lines_ok msgs = true ->
+  forallb lines_ok (map (qmsg f) msgs) = true /\ forallb msg_ok (map (qmsg f) msgs) = true.
+Proof.
+  intros NF KL. induction msgs as [|[sp b] r IH]; intro H; simpl in *; [split; reflexivity|].
+  apply andb_true_iff in H as [H1 H2]. destruct (IH H2) as [I1 I2]. rewrite I1, I2. rewrite !andb_true_r.
+  unfold lines_ok in *. unfold msg_ok. simpl in *.
+  apply andb_true_iff in H1 as [H1 Hb]. apply andb_true_iff in H1 as [Hf Hs]. rewrite Hf, Hs. simpl.
+  split.
+  - rewrite forallb_forall in *. intros x Hx. apply in_map_iff in Hx as [y [<- Hy]]. rewrite KL. apply Hb. exact Hy.
+  - rewrite forallb_forall. intros x Hx. apply in_map_iff in Hx as [y [<- Hy]]. rewrite NF. reflexivity.
+Qed.
+
+Lemma quoted_one_per_message (f : str -> str) :
+  (forall l, is_from_line (f l) = false) -> (forall l, is_line (f l) = is_line l) ->
+  forall msgs, forallb lines_ok msgs = true ->
+  split_mbox_messages (mbox_file (map (qmsg f) msgs)) = split_result (map (qmsg f) msgs).
+Proof. intros NF KL msgs H. destruct (quoted_msgs_ok f NF KL msgs H) as [A B]. apply roundtrip_lines; assumption. Qed.
+
+Lemma esc_o_not_from l : is_from_line (esc_o_line l) = false.
+Proof.
+  unfold esc_o_line. destruct (startswith l (s "From ")) eqn:S.
+  - unfold is_from_line. simpl. reflexivity.
+  - unfold is_from_line. rewrite S. reflexivity.
+Qed.
+
+Lemma esc_o_is_line l : is_line (esc_o_line l) = is_line l.
+Proof.
+  unfold esc_o_line. destruct (startswith l (s "From ")) eqn:S; [|reflexivity].
+  unfold is_line. simpl. destruct (rev l) as [|c r] eqn:E.
+  - apply (f_equal (@rev N)) in E. rewrite rev_involutive in E. subst l. discriminate S.
+  - simpl. rewrite forallb_app. simpl. rewrite andb_true_r. reflexivity.
+Qed.
+
+Lemma mboxo_one_per_message msgs : forallb lines_ok msgs = true ->
+  split_mbox_messages (mbox_file (map (qmsg esc_o_line) msgs)) = split_result (map (qmsg esc_o_line) msgs).
+Proof. apply quoted_one_per_message; [exact esc_o_not_from | exact esc_o_is_line]. Qed.
+
+(* ------------------------------------------------------------------ what a separator line looks like *)
+Lemma ends_4_digits_rev x : ends_4_digits (rev x) = true ->
+  exists d4 d3 d2 d1 rest, x = d4 :: d3 :: d2 :: d1 :: rest /\
+    b_is_digit d1 = true /\ b_is_digit d2 = true /\ b_is_digit d3 = true /\ b_is_digit d4 = true.
+Proof.
+  unfold ends_4_digits. rewrite rev_involutive. destruct x as [|a [|b [|c [|d rest]]]]; try discriminate.
+  intro H. apply andb_true_iff in H as [H Hd]. apply andb_true_iff in H as [H Hc]. apply andb_true_iff in H as [Ha Hb].
+  exists a, b, c, d, rest. repeat split; try reflexivity; assumption.
+Qed.
+
+Lemma from_line_sound l : is_from_line l = true ->
+  exists a mid d1 d2 d3 d4 tail, l = from_shape a mid d1 d2 d3 d4 tail /\ b_is_ws a = false /\
+    b_is_digit d1 = true /\ b_is_digit d2 = true /\ b_is_digit d3 = true /\ b_is_digit d4 = true /\ line_end tail = true.
+Proof.
+  unfold is_from_line. intro H. apply andb_true_iff in H as [S H]. apply startswith_app in S as [r0 ->].
+  change (skipn 5 (s "From " ++ r0)) with r0 in H. destruct r0 as [|a r]; [discriminate|].
+  apply andb_true_iff in H as [Ha H]. apply negb_true_iff in Ha.
+  destruct (rev r) as [|nl body_rev] eqn:E; [discriminate|].
+  apply andb_true_iff in H as [Hn H]. apply N.eqb_eq in Hn. subst nl.
+  assert (Er : r = rev body_rev ++ [NL]).
+  { apply (f_equal (@rev N)) in E. rewrite rev_involutive in E. exact E. }
+  apply orb_true_iff in H as [H|H].
+  - apply ends_4_digits_rev in H as [d4 [d3 [d2 [d1 [rest [Eb [D1 [D2 [D3 D4]]]]]]]]].
+    exists a, (rev rest), d1, d2, d3, d4, [NL]. split; [|repeat split; try assumption; reflexivity].
+    unfold from_shape. rewrite Er, Eb. cbn [rev]. rewrite <- !app_assoc. reflexivity.
+  - destruct body_rev as [|cr b2]; [discriminate|]. apply andb_true_iff in H as [Hc H]. apply N.eqb_eq in Hc. subst cr.
+    apply ends_4_digits_rev in H as [d4 [d3 [d2 [d1 [rest [Eb [D1 [D2 [D3 D4]]]]]]]]].
+    exists a, (rev rest), d1, d2, d3, d4, [CR; NL]. split; [|repeat split; try assumption; reflexivity].
+    unfold from_shape. rewrite Er, Eb. cbn [rev]. rewrite <- !app_assoc. reflexivity.
+Qed.
+
+Lemma from_line_complete a mid d1 d2 d3 d4 tail :
+  b_is_ws a = false -> b_is_digit d1 = true -> b_is_digit d2 = true -> b_is_digit d3 = true -> b_is_digit d4 = true ->
+  line_end tail = true -> is_from_line (from_shape a mid d1 d2 d3 d4 tail) = true.
+Proof.
+  intros Ha D1 D2 D3 D4 T. unfold line_end in T. unfold is_from_line, from_shape.
+  change (startswith (s "From " ++ a :: mid ++ [d1; d2; d3; d4] ++ tail) (s "From ")) with true.
+  change (skipn 5 (s "From " ++ a :: mid ++ [d1; d2; d3; d4] ++ tail)) with (a :: mid ++ [d1; d2; d3; d4] ++ tail).
+  cbn [andb]. cbv iota. rewrite Ha. cbn [negb andb].
+  apply orb_true_iff in T as [T|T]; apply str_eqb_eq in T; subst tail.
+  - replace (rev (mid ++ [d1; d2; d3; d4] ++ [NL])) with (NL :: d4 :: d3 :: d2 :: d1 :: rev mid)
+      by (rewrite !rev_app_distr; reflexivity).
+    change (N.eqb NL NL) with true. cbn [andb]. apply orb_true_iff. left.
+    unfold ends_4_digits. rewrite rev_involutive. rewrite D1, D2, D3, D4. reflexivity.
+  - replace (rev (mid ++ [d1; d2; d3; d4] ++ [CR; NL])) with (NL :: CR :: d4 :: d3 :: d2 :: d1 :: rev mid)
+      by (rewrite !rev_app_distr; reflexivity).
+    change (N.eqb NL NL) with true. cbn [andb]. apply orb_true_iff. right.
+    change (N.eqb CR CR) with true. cbn [andb].
+    unfold ends_4_digits. rewrite rev_involutive. rewrite D1, D2, D3, D4. reflexivity.
+Qed.
+
+(* MMDF: the ^A^A^A^A delimiter lines are no separators; they come back inside the messages *)
+Lemma mmdf_delimiters_kept :
+  exists msgs : list bmsg, forallb (bmsg_ok LF) msgs = true /\
+    split_mbox_messages (mmdf_concat msgs) <> map snd msgs /\
+    List.length (split_mbox_messages (mmdf_concat msgs)) = List.length msgs /\
+    forallb (fun m => existsb (N.eqb 1) m) (split_mbox_messages (mmdf_concat msgs)) = true.
+Proof.
+  exists [(w_sep, s "Subject: a" ++ [NL; NL] ++ s "one"); (w_sep, s "Subject: b" ++ [NL; NL] ++ s "two")].
+  split; [vm_compute; reflexivity|]. split; [vm_compute; discriminate|]. split; vm_compute; reflexivity.
+Qed.
